@@ -231,7 +231,7 @@ static void put_block_case(Rng &rng, const Opts &o, std::vector<std::string> &li
 }
 
 static void generate(Rng &rng, const Opts &o, std::vector<std::string> &lines) {
-    long rounds = o.cases > 0 ? o.cases : (o.thorough() ? 12 : 2);
+    long rounds = o.cases > 0 ? o.cases : (o.thorough() ? 60 : 8);
     static const long combos[][2] = { {2,0},{3,0},{4,0},{2,1},{3,1},{2,2},{4,2},{2,3},{3,3} };
     for (long k = 0; k < rounds; ++k) {
         for (auto &cb : combos) for (long kind = 0; kind < 2; ++kind) put_block_case(rng, o, lines, kind, cb[0], cb[1]);
